@@ -7,6 +7,7 @@ import (
 	"fmt"
 	"os"
 	"strconv"
+	"syscall"
 )
 
 // ndjson helpers ---------------------------------------------------------
@@ -80,4 +81,14 @@ func newFlags(name string) *flag.FlagSet { return flag.NewFlagSet(name, flag.Exi
 func emitSummary(v any) {
 	b, _ := json.Marshal(v)
 	fmt.Println(string(b))
+}
+
+// cpuMillis: processor time this process has used (user + system).  Ceilings on "does it come back" are taken on processor time,
+// so that a loaded machine does not turn a slow case into a hang; a generous wall-clock ceiling catches a case that sleeps.
+func cpuMillis() int64 {
+	var ru syscall.Rusage
+	if err := syscall.Getrusage(syscall.RUSAGE_SELF, &ru); err != nil {
+		return 0
+	}
+	return (ru.Utime.Sec+ru.Stime.Sec)*1000 + int64(ru.Utime.Usec+ru.Stime.Usec)/1000
 }
